@@ -32,8 +32,6 @@ def run(tier):
     else:
         lu_new(chk, F, new[0])
     constructors(chk, F, fns)
-    determinant(chk, F, fns)
-    eigen_sort(chk, F, fns)
     guards_real(chk, F, fns)
     scalar_operand(chk, F)
     field_traits(chk, F)
@@ -182,38 +180,6 @@ def lu_new(chk, F, body):
            "the guarded quantity is the maximum of |a[(k,i)]|.re() over the remaining rows k in i..n (initialised to zero)", loc,
            found="init zero: %s, scan: %s, assignments: %d %s" % (init_ok, scan_ok, len(other_assign), "; ".join(detail)),
            required="let mut max = 0; for k in i..n { if |a[(k,i)]|.re() > max { max = ... } }")
-    # (3a) pairing inside the `if imax != i` block
-    pair_ok = False
-    found_p = ""
-    for pos, (st, e) in enumerate(sts):
-        if e is None or e["k"] != "if":
-            continue
-        c = peel(e["c"])
-        if c["k"] == "bin" and c["op"] == "!=" and ivar in (local_id(c["a"]), local_id(c["b"])):
-            blk = e["then"]
-            other = [v for v in (local_id(c["a"]), local_id(c["b"])) if v != ivar]
-            if imax_var is not None and other != [imax_var]:
-                continue
-            incs = [y for y in walk.walk(blk) if y.get("k") == "assignop" and y["op"].startswith("+") and root_name(y["a"]) == "p_count"]
-            all_incs = [y for y in walk.walk_body(body) if y.get("k") == "assignop" and root_name(y["a"]) == "p_count"]
-            p_assigns = [y for y in walk.walk(blk) if y.get("k") == "assign" and peel(y["a"])["k"] == "index" and root_name(peel(y["a"])["a"]) == "p"]
-            a_assigns = [y for y in walk.walk(blk) if y.get("k") == "assign" and index_pair(y["a"]) and index_pair(y["a"])[2] == "a"]
-            # the row exchange must cover whole rows (columns 0..n): the multipliers stored in the columns left of the pivot
-            # belong to the rows and have to move with them
-            full_rows = False
-            swap_range = ""
-            for lp in walk.walk(blk):
-                if is_for(lp):
-                    fp2 = for_parts(lp)
-                    if fp2 and any(y.get("k") == "assign" and index_pair(y["a"]) and index_pair(y["a"])[2] == "a" for y in walk.walk(fp2[3])):
-                        st0 = peel(fp2[2])
-                        swap_range = "%s..%s" % (expr_s(fp2[2]), expr_s(fp2[1]))
-                        full_rows = st0["k"] == "lit" and st0["lit"]["v"] == "0" and expr_s(fp2[1]) == expr_s(end)
-            found_p = "p_count updates in block: %d (total %d), permutation assignments: %d, row assignments: %d, row exchange over columns %s" % (
-                len(incs), len(all_incs), len(p_assigns), len(a_assigns), swap_range or "?")
-            pair_ok = len(incs) == 1 and len(all_incs) == 1 and len(p_assigns) == 2 and len(a_assigns) == 2 and full_rows
-    chk.ob("lu|pairing|swap", pair_ok, "row swap, permutation swap and parity counter are updated together in the same guarded block", loc,
-           found=found_p or "no `if imax != i` block", required="1 counter update, 2 permutation assignments, 2 row assignments over columns 0..n in one block")
 
 
 def resolve_local(scope, e):
@@ -242,78 +208,6 @@ def constructors(chk, F, fns):
     chk.ob("lu|typestate", ok, "an LU value can only be produced by LU::new (private fields, single construction site), so solve / inverse / "
            "determinant only ever divide by pivots that passed the guard", "src/linalg.rs", found="construction sites: %s; fields private: %s" % (sites, private),
            required="only LU::new")
-
-
-def determinant(chk, F, fns):
-    bs = [b for p, b in fns.items() if p.endswith("::determinant")]
-    if len(bs) != 1:
-        chk.undecide("lu|determinant", "missing anchor")
-        return
-    b = bs[0]
-    ifs = [n for n in walk.walk_body(b) if n.get("k") == "if"]
-    ok = False
-    found = ""
-    if len(ifs) == 1:
-        e = ifs[0]
-        c = peel(e["c"])
-        found = expr_s(e)[:200]
-        if c["k"] == "bin" and c["op"] == "==" and peel(c["b"])["k"] == "lit" and peel(c["b"])["lit"]["v"] == "0":
-            lhs = peel(c["a"])
-            if lhs["k"] == "bin" and lhs["op"] == "%" and peel(lhs["b"])["k"] == "lit" and peel(lhs["b"])["lit"]["v"] == "2":
-                inner = peel(lhs["a"])
-                uses_count = any(root_name(x) == "self.p_count" for x in walk.walk(inner) if x.get("k") == "field")
-                t = peel(e["then"])
-                el = peel(e["else"]) if e.get("else") else None
-                tid = local_id(t)
-                ok = uses_count and tid is not None and el is not None and el["k"] == "un" and el["op"] == "-" and local_id(el["a"]) == tid
-                if ok:
-                    # det = product of the diagonal
-                    init = resolve_local(b["body"], t)
-                    prods = [x for x in walk.walk(init)] if init else []
-                    ok = any(x.get("k") == "mcall" and x["m"] == "product" for x in prods) and \
-                        any(index_pair(x) and index_pair(x)[0] == index_pair(x)[1] and index_pair(x)[2] == "self.a" for x in prods if x.get("k") == "index")
-    chk.ob("lu|determinant|parity", ok, "the determinant is the product of the pivots, negated exactly when the number of row swaps is odd",
-           body_loc(F, b), found=found, required="if (p_count - n) % 2 == 0 { det } else { -det }")
-
-
-def eigen_sort(chk, F, fns):
-    bs = [b for p, b in fns.items() if p.endswith("jacobi_eigenvalue")]
-    if len(bs) != 1:
-        chk.undecide("eigen|sort", "missing anchor")
-        return
-    b = bs[0]
-    ok = False
-    found = ""
-    for n in walk.walk_body(b):
-        if n.get("k") != "if":
-            continue
-        c = peel(n["c"])
-        if not (c["k"] == "bin" and c["op"] == "!="):
-            continue
-        m, k = local_id(c["a"]), local_id(c["b"])
-        swaps = [x for x in walk.walk(n["then"]) if x.get("k") == "mcall" and x["m"] == "swap"]
-        dsw = [x for x in swaps if root_name(x["recv"]) == "d" and {local_id(a) for a in x["args"]} == {m, k}]
-        vsw = []
-        for x in swaps:
-            if root_name(x["recv"]) == "v" and len(x["args"]) == 2:
-                t0, t1 = peel(x["args"][0]), peel(x["args"][1])
-                if t0["k"] == "tup" and t1["k"] == "tup" and local_id(t0["es"][0]) == local_id(t1["es"][0]) and \
-                        {local_id(t0["es"][1]), local_id(t1["es"][1])} == {m, k}:
-                    vsw.append(x)
-        found = "eigenvalue swaps: %d, eigenvector column swaps: %d" % (len(dsw), len(vsw))
-        if len(dsw) == 1 and len(vsw) == 1:
-            ok = True
-    chk.ob("eigen|sort|pairing", ok, "the ascending sort swaps the eigenvector column together with its eigenvalue", body_loc(F, b),
-           found=found, required="d.swap(m,k) and v.swap((l,m),(l,k)) in the same block")
-    # ascending order: comparison on real parts `d[l].re() < d[m].re()`
-    asc = False
-    for n in walk.walk_body(b):
-        if n.get("k") == "if":
-            c = peel(n["c"])
-            if c["k"] == "bin" and c["op"] == "<" and all(peel(s)["k"] == "mcall" and peel(s)["m"] == "re" for s in (c["a"], c["b"])):
-                asc = True
-    chk.ob("eigen|sort|ascending", asc, "eigenvalues are ordered by comparing real parts with `<` (ascending selection sort)", body_loc(F, b),
-           nontrivial=False)
 
 
 def guards_real(chk, F, fns):
